@@ -8,6 +8,7 @@ import (
 	"fmt"
 	"net"
 	"sync"
+	"time"
 
 	log "github.com/sirupsen/logrus"
 
@@ -175,9 +176,19 @@ func (client *webAgentClient) acknowledgeIncoming(err error) error {
 	}
 }
 
+// webAgentClientWriteTimeout is the time a message's transmission to the client might take at most.
+const webAgentClientWriteTimeout = 10 * time.Second
+
 func (client *webAgentClient) writeMessage(msg webAgentMessage) error {
 	client.Lock()
 	defer client.Unlock()
+
+	// A client which does not read any longer, e.g., because its host was suspended or lost its connection silently,
+	// must not block this write for ever. The MuxAgents wait for it while holding their locks, and so does everything
+	// which asks them for their endpoints: the whole node would stand still.
+	if dlErr := client.conn.SetWriteDeadline(time.Now().Add(webAgentClientWriteTimeout)); dlErr != nil {
+		return dlErr
+	}
 
 	wc, wcErr := client.conn.NextWriter(websocket.BinaryMessage)
 	if wcErr != nil {
